@@ -350,7 +350,7 @@ struct Out {
 fn run_doc(out: &mut Out, si: usize, sdl: &str, tsdoc: &TypeSystemDocument, schema: &Schema<Cow<str>, Pos>, text: &str, stream: &str) {
     let doc: OperationDocument = match load_operation(text) { Ok(d) => d, Err(_) => { *out.stats.entry("documents_not_loaded").or_insert(0) += 1; return; } };
     let errs = check_operation(schema, &doc);
-    if stream == "spec-invalid" {
+    if stream == "spec-invalid" || stream == "redefined-directives" {
         // Field Selection Merging violations: check accepts them (rule not implemented; C03/C08's subject),
         // generate panics in deep_merge.rs.  Outside C01/C02's quantifier: only the outcome is tied.
         out.docs.push(ast_coq::opdoc(&doc));
@@ -369,9 +369,9 @@ fn run_doc(out: &mut Out, si: usize, sdl: &str, tsdoc: &TypeSystemDocument, sche
             let r = catch(AssertUnwindSafe(|| get_type_for_selection_set(&ctx, sels, &parent_ty)));
             let (term, outcome) = match &r { Ok(t) => (format!("(Some (Ok {}))", stree(t)), "ok".to_string()), Err(m) => (perr(m), format!("panic: {}", m.lines().next().unwrap_or(""))) };
             out.terms.push((si, di, format!("CInvalid {{S}} {{D}} {} {}", idx, term)));
-            out.descr.push(json!({"kind": "definition of a spec-invalid document (outside the quantifier; outcome tie only)", "stream": stream, "definition": idx,
+            out.descr.push(json!({"kind": if stream == "spec-invalid" { "definition of a spec-invalid document (outside the quantifier; outcome tie only)" } else { "definition over a schema that redefines @skip/@include (outside the quantifier; outcome tie only)" }, "stream": stream, "definition": idx,
                                   "schema": sdl, "doc": text, "check_errors": errs.len(), "outcome": outcome, "classes": []}));
-            *out.stats.entry("spec_invalid_definitions(outcome tie only)").or_insert(0) += 1;
+            *out.stats.entry(if stream == "spec-invalid" { "spec_invalid_definitions(outcome tie only)" } else { "redefined_skip_include_definitions(outcome tie only)" }).or_insert(0) += 1;
         }
         out.distinct.insert(format!("{}\u{0}{}", sdl, text));
         return;
@@ -609,6 +609,24 @@ fn main() {
                      "query Q { k: __typename k: a { x } }", "query Q { a { id } ... on Query { a: b { id } } }"] {
             run_doc(&mut out, si, sdl, &tsdoc, &ts, text, "spec-invalid");
         }
+    }
+
+    // schemas that REDEFINE the built-in @skip / @include (without `if`, or with an `if` of another type): check accepts
+    // `a @skip`; since fix 021e9ac the printer treats an application without a boolean `if` as "skips nothing"
+    for (extra, docs) in [
+        ("directive @skip on FIELD | FRAGMENT_SPREAD | INLINE_FRAGMENT\ndirective @include on FIELD | FRAGMENT_SPREAD | INLINE_FRAGMENT\n",
+         vec!["query Q { a { x @skip y @include id } }", "query Q { u { ... on A @skip { x } ...F @include __typename } }\nfragment F on B { z }", "query Q { a @include { x @skip x } }"]),
+        ("directive @skip(if: String) on FIELD | FRAGMENT_SPREAD | INLINE_FRAGMENT\ndirective @include(unless: Boolean) on FIELD\n",
+         vec!["query Q { a { x @skip(if: \"s\") y @include(unless: true) id @skip } }", "query Q($v: Boolean!) { a { x @include(unless: $v) y } }"]),
+    ] {
+        let sdl = format!("{}{}", extra, corpus()[0].0);
+        let tsdoc = match load_schema(&sdl) { Ok(d) => d, Err(_) => { *out.stats.entry("redefined_directive_schemas_not_loaded").or_insert(0) += 1; continue; } };
+        if !check_schema(&tsdoc).is_empty() { *out.stats.entry("redefined_directive_schemas_rejected_by_check").or_insert(0) += 1; continue; }
+        out.schemas.push(ast_coq::tsdoc(&tsdoc));
+        out.schema_texts.push(schema_declaration(&tsdoc, &[]));
+        let si = out.schemas.len() - 1;
+        let ts = to_type_system(&tsdoc);
+        for text in docs { run_doc(&mut out, si, &sdl, &tsdoc, &ts, text, "redefined-directives"); }
     }
 
     let (n_schemas, n_docs) = if thorough { (300, 10) } else { (36, 5) };
